@@ -75,6 +75,7 @@ func TestC02_ByteBufferTransfers(t *testing.T) {
 			}
 			log("peerDrain=%d", len(data))
 		}
+		holdFrac, holdGrow, heldBack := 0, 0, 0
 		// took verifies n fresh bytes at the end of rb's write area, commits and consumes them.
 		took := func(n int, what string) {
 			if n <= 0 || n > rb.WriteLen() {
@@ -83,7 +84,22 @@ func TestC02_ByteBufferTransfers(t *testing.T) {
 			if rb.WriteLen() != n {
 				fail("%s reported n=%d, write area grew to %d", what, n, rb.WriteLen())
 			}
-			rb.Commit(n)
+			if holdFrac > 0 && n >= 2 {
+				// the caller commits the first part (a header, say), makes room for more - which reallocates the buffer
+				// while the rest of what was received is still uncommitted - and commits the rest afterwards
+				k := max(1, n*holdFrac/4)
+				rb.Commit(k)
+				rb.Reserve(rb.Cap() + holdGrow)
+				if rb.WriteLen() != n-k {
+					fail("%s: %d received bytes were uncommitted before Reserve, %d after", what, n-k, rb.WriteLen())
+				}
+				rb.Commit(n - k)
+				log("heldBack(%d of %d, grow %d)", n-k, n, holdGrow)
+				holdFrac = 0
+				heldBack++
+			} else {
+				rb.Commit(n)
+			}
 			d := rb.Data()
 			if len(d) != n {
 				fail("%s: read area holds %d bytes after committing %d", what, len(d), n)
@@ -187,6 +203,11 @@ func TestC02_ByteBufferTransfers(t *testing.T) {
 				n := sysx.WriteSome(pfd, b)
 				peerSent += int64(n)
 				log("peerWrite(%d)=%d", k, n)
+			},
+			"holdBack": func(rt *rapid.T) {
+				// the next delivery is committed in two parts with a growing Reserve in between (added after seeded change C02-k)
+				holdFrac = rapid.IntRange(1, 3).Draw(rt, "holdFrac")
+				holdGrow = rapid.SampledFrom([]int{1, 513, 70001}).Draw(rt, "holdGrow")
 			},
 			"readFrom": func(rt *rapid.T) {
 				if asyncR {
@@ -356,6 +377,9 @@ func TestC02_ByteBufferTransfers(t *testing.T) {
 		}
 		if asyncReadDeferred > 0 {
 			cls = append(cls, "bytebuffer-AsyncReadFrom-completed-from-poller")
+		}
+		if heldBack > 0 {
+			cls = append(cls, "bytebuffer-commit-held-back-across-growing-Reserve")
 		}
 		rec.Case("bb:"+strings.Join(trace, ","), partialWouldBlock > 0 || asyncFromPoller > 0, cls,
 			map[string]any{"ops": len(trace), "appended": appended, "peer_sent": peerSent, "sockbuf": bufSize, "partial_would_block": partialWouldBlock})
